@@ -86,11 +86,11 @@ func (l *mapLoop) fromIter(v ssa.Value) bool {
 
 // reviewed accumulation instances: function -> reason (the accumulated slice is order-insensitively consumed)
 var a3AccumTable = map[string]string{
-	"(in_toto.Set).Slice":                "documented as unordered; on verification paths its result only reaches fmt arguments (checked by the rule: callers' uses)",
-	"in_toto.artifactsDictKeyStrings":    "documented as unordered; VerifyArtifacts only adds the elements to a Set (order-insensitive)",
-	"(*in_toto.Layout).RootCAIDs":        "flows into checkCertConstraint whose verdict is set-based (NewSet + membership)",
-	"in_toto.SubstituteParameters":       "feeds strings.NewReplacer; order matters only if one old string is a prefix of another, excluded by the checked facts (R-C18-3: names match ^[a-zA-Z0-9_-]+$, old = \"{\"+name+\"}\")",
-	"in_toto.InTotoMatchProducts":        "three result slices documented as unordered name lists",
+	"(in_toto.Set).Slice":                     "documented as unordered; on verification paths its result only reaches fmt arguments (checked by the rule: callers' uses)",
+	"in_toto.artifactsDictKeyStrings":         "documented as unordered; VerifyArtifacts only adds the elements to a Set (order-insensitive)",
+	"(*in_toto.Layout).RootCAIDs":             "flows into checkCertConstraint whose verdict is set-based (NewSet + membership)",
+	"in_toto.SubstituteParameters":            "feeds strings.NewReplacer; order matters only if one old string is a prefix of another, excluded by the checked facts (R-C18-3: names match ^[a-zA-Z0-9_-]+$, old = \"{\"+name+\"}\")",
+	"in_toto.InTotoMatchProducts":             "three result slices documented as unordered name lists",
 	"in_toto.getSupportedKeyIDHashAlgorithms": "",
 }
 
